@@ -160,9 +160,11 @@ func parseSpec(src string) (x *SExpr, err error) {
 
 type parseErr string
 
-func (p *specParser) fail(msg string)  { panic(parseErr(fmt.Sprintf("%s at offset %d", msg, p.peek().pos))) }
-func (p *specParser) peek() tok        { return p.toks[p.p] }
-func (p *specParser) next() tok        { t := p.toks[p.p]; p.p++; return t }
+func (p *specParser) fail(msg string) {
+	panic(parseErr(fmt.Sprintf("%s at offset %d", msg, p.peek().pos)))
+}
+func (p *specParser) peek() tok          { return p.toks[p.p] }
+func (p *specParser) next() tok          { t := p.toks[p.p]; p.p++; return t }
 func (p *specParser) isOp(s string) bool { t := p.peek(); return t.k == "op" && t.s == s }
 func (p *specParser) isID(s string) bool { t := p.peek(); return t.k == "id" && t.s == s }
 func (p *specParser) expect(s string) {
